@@ -10,8 +10,11 @@ operation carrying an arbitrary fault *sequence* (any set of failing collaborato
   total = Σ of the deposit claims the tally applied successfully, the tally observed every nonce
   `1 … lastObserved` exactly once, every burned transfer has an applied executed-batch claim.
 
-The logs are then tied to the *op history* (`accepted_provenance`, `refunded_provenance`,
-`burned_provenance`, `claims_from_history`, `fundLog_eq`).
+The logs are then tied to the *op history* (`accepted_provenance` / `accepted_forever`,
+`refunded_provenance`, `burned_provenance` — which end-block, which claim, which batch —,
+`claims_from_history`, `fundLog_eq`), and the end-block composite is tied to its inputs and to the result
+list it reports (`endBlock_loops_are_folds`, `tally_results_are_log_flags`,
+`supply_changes_only_by_fund_deposit_burn`).
 -/
 import PalomaModel.Lemmas.Bridge
 import PalomaModel.Gen.Atomicity
@@ -1288,6 +1291,472 @@ theorem applied_lookup (claims : List (Nat × Claim)) (hnd : (claims.map (·.1))
     simp only [List.map_cons, List.filterMap_cons, h1]
     rw [ih (fun x hx => h x (List.mem_cons_of_mem _ hx))]
 
+/-! ### provenance of burned transfers: which claim, which batch, which end-block -/
+
+/-- `t` sits in the open batch of its token with nonce `nonce` -/
+def InBatch (s : St) (t : Tx) (nonce : Nat) : Prop :=
+  ∃ b ∈ s.batches, b.token = t.token ∧ b.nonce = nonce ∧ t ∈ b.txs
+
+/-- what a sequence of keeper-level sub-operations can do to cursor, batch counter, observation log,
+    open batches and the burned log -/
+structure BurnRel (s s' : St) : Prop where
+  claims : s'.claims = s.claims
+  cursor : s.lastObserved ≤ s'.lastObserved
+  counter : s.lastBatch ≤ s'.lastBatch
+  appliedMono : ∀ e ∈ s.applied, e ∈ s'.applied
+  batches : ∀ b' ∈ s'.batches, (∃ b ∈ s.batches, b.token = b'.token ∧ b.nonce = b'.nonce ∧ b.txs = b'.txs) ∨
+      (s.lastBatch < b'.nonce ∧ b'.nonce ≤ s'.lastBatch)
+  burned : ∀ t ∈ s'.burned, t ∈ s.burned ∨ ∃ n nonce eh,
+      (n, Claim.executed t.token nonce eh) ∈ s.claims ∧ s.lastObserved < n ∧ n ≤ s'.lastObserved ∧
+      (n, Claim.executed t.token nonce eh, Res.ok) ∈ s'.applied ∧
+      (InBatch s t nonce ∨ (s.lastBatch < nonce ∧ nonce ≤ s'.lastBatch))
+
+theorem BurnRel.rfl' (s : St) : BurnRel s s :=
+  ⟨rfl, Nat.le_refl _, Nat.le_refl _, fun _ h => h, fun b hb => Or.inl ⟨b, hb, rfl, rfl, rfl⟩, fun _ h => Or.inl h⟩
+
+theorem BurnRel.trans' {a b c : St} (h1 : BurnRel a b) (h2 : BurnRel b c) : BurnRel a c := by
+  refine ⟨h2.claims.trans h1.claims, Nat.le_trans h1.cursor h2.cursor, Nat.le_trans h1.counter h2.counter,
+    fun e he => h2.appliedMono e (h1.appliedMono e he), ?_, ?_⟩
+  · intro b'' hb''
+    rcases h2.batches b'' hb'' with ⟨b', hb', e1, e2, e3⟩ | ⟨l1, l2⟩
+    · rcases h1.batches b' hb' with ⟨b0, hb0, d1, d2, d3⟩ | ⟨l1, l2⟩
+      · exact Or.inl ⟨b0, hb0, d1.trans e1, d2.trans e2, d3.trans e3⟩
+      · have := h2.counter
+        exact Or.inr ⟨by omega, by omega⟩
+    · have := h1.counter
+      exact Or.inr ⟨by omega, l2⟩
+  · intro t ht
+    rcases h2.burned t ht with hb | ⟨n, nonce, eh, hc, l1, l2, hap, hbt⟩
+    · rcases h1.burned t hb with ha | ⟨n, nonce, eh, hc, l1, l2, hap, hbt⟩
+      · exact Or.inl ha
+      · refine Or.inr ⟨n, nonce, eh, hc, l1, Nat.le_trans l2 h2.cursor, h2.appliedMono _ hap, ?_⟩
+        rcases hbt with hbt | ⟨m1, m2⟩
+        · exact Or.inl hbt
+        · exact Or.inr ⟨m1, Nat.le_trans m2 h2.counter⟩
+    · refine Or.inr ⟨n, nonce, eh, by rw [← h1.claims]; exact hc, Nat.lt_of_le_of_lt h1.cursor l1, l2, hap, ?_⟩
+      rcases hbt with ⟨b', hb', e1, e2, e3⟩ | ⟨m1, m2⟩
+      · rcases h1.batches b' hb' with ⟨b0, hb0, d1, d2, d3⟩ | ⟨k1, k2⟩
+        · exact Or.inl ⟨b0, hb0, d1.trans e1, d2.trans e2, by rw [d3]; exact e3⟩
+        · exact Or.inr ⟨by omega, by have := h2.counter; omega⟩
+      · exact Or.inr ⟨Nat.lt_of_le_of_lt h1.counter m1, m2⟩
+
+/-- a sub-operation that leaves claims, cursor, observation log and burned log alone and only
+    renames / removes open batches or adds one with a fresh nonce -/
+theorem BurnRel.of_batches {s s' : St} (h1 : s'.claims = s.claims) (h2 : s'.lastObserved = s.lastObserved)
+    (h3 : s.lastBatch ≤ s'.lastBatch) (h4 : s'.applied = s.applied) (h5 : s'.burned = s.burned)
+    (h6 : ∀ b' ∈ s'.batches, (∃ b ∈ s.batches, b.token = b'.token ∧ b.nonce = b'.nonce ∧ b.txs = b'.txs) ∨
+      (s.lastBatch < b'.nonce ∧ b'.nonce ≤ s'.lastBatch)) : BurnRel s s' :=
+  ⟨h1, by omega, h3, fun e he => by rw [h4]; exact he, h6, fun t ht => Or.inl (by rw [← h5]; exact ht)⟩
+
+/-- the lifted relation: the structural invariant is carried along (it gives the token of a burned
+    transfer) -/
+def BurnStep (s s' : St) : Prop := Inv s → Inv s' ∧ BurnRel s s'
+
+theorem burn_innerRel : InnerRel BurnStep where
+  refl := fun s hi => ⟨hi, BurnRel.rfl' s⟩
+  trans := fun h1 h2 hi => ⟨(h2 (h1 hi).1).1, (h1 hi).2.trans' (h2 (h1 hi).1).2⟩
+  build := by
+    intro s f tok time hi
+    refine ⟨inv_stepRel.build s f tok time hi, ?_⟩
+    rcases buildOne_cases s f tok time with ⟨_, h⟩ | ⟨_, _, h⟩ <;> rw [h]
+    · exact BurnRel.rfl' s
+    · refine BurnRel.of_batches rfl rfl (by simp [buildOk]) rfl rfl ?_
+      intro b' hb'
+      simp only [buildOk, List.mem_cons] at hb'
+      rcases hb' with rfl | hb'
+      · exact Or.inr ⟨by simp [newBatch], by simp [newBatch, buildOk]⟩
+      · exact Or.inl ⟨b', hb', rfl, rfl, rfl⟩
+  cancelBatch := by
+    intro s f tok nonce hi
+    refine ⟨inv_stepRel.cancelBatch s f tok nonce hi, ?_⟩
+    rcases cancelBatch_cases s f tok nonce with ⟨_, h⟩ | ⟨_, b, _, h⟩ <;> rw [h]
+    · exact BurnRel.rfl' s
+    · refine BurnRel.of_batches rfl rfl (Nat.le_refl _) rfl rfl ?_
+      intro b' hb'
+      exact Or.inl ⟨b', (removeBatch_sublist _ _ _).subset hb', rfl, rfl, rfl⟩
+  setEstimate := by
+    intro s f tok nonce est hi
+    refine ⟨inv_stepRel.setEstimate s f tok nonce est hi, ?_⟩
+    rcases setEstimate_cases s f tok nonce est with ⟨_, h⟩ | ⟨_, b, _, _, h⟩ <;> rw [h]
+    · exact BurnRel.rfl' s
+    · refine BurnRel.of_batches rfl rfl (Nat.le_refl _) rfl rfl ?_
+      intro b' hb'
+      simp only [estimateOk, List.mem_map] at hb'
+      obtain ⟨x, hx, rfl⟩ := hb'
+      refine Or.inl ⟨x, hx, ?_, ?_, ?_⟩ <;> split <;> rfl
+  observe := by
+    intro s f n c hn hc hi
+    refine ⟨inv_stepRel.observe s f n c hn hc hi, ?_⟩
+    rw [observe_state, observe_res]
+    rcases applyClaim_cases { s with lastObserved := n } f c with
+      ⟨hr, h⟩ | ⟨hr, ⟨tok, nonce, eh, b, hcl, hfind, _, _, _, h⟩ | ⟨tok, amt, r, who, hcl, hwho, h⟩⟩
+    · rw [h, hr]
+      exact ⟨rfl, by simp only; omega, Nat.le_refl _, fun e he => List.mem_cons_of_mem _ he,
+        fun b hb => Or.inl ⟨b, hb, rfl, rfl, rfl⟩, fun t ht => Or.inl ht⟩
+    · rw [h, hr]
+      have ⟨hbm, hbt, hbn⟩ := findBatch_some hfind
+      refine ⟨rfl, by simp only [execOk]; omega, Nat.le_refl _, fun e he => List.mem_cons_of_mem _ he, ?_, ?_⟩
+      · intro b' hb'
+        exact Or.inl ⟨b', (removeBatch_sublist _ _ _).subset hb', rfl, rfl, rfl⟩
+      · intro t ht
+        simp only [execOk, List.mem_append] at ht
+        rcases ht with ht | ht
+        · have htok : t.token = tok := by rw [hi.btok b hbm t ht]; exact hbt
+          refine Or.inr ⟨n, nonce, eh, by rw [htok, ← hcl]; exact hc, by omega, by simp only [execOk]; omega, ?_,
+            Or.inl ⟨b, hbm, by rw [htok]; exact hbt, hbn, ht⟩⟩
+          simp only [execOk, htok, hcl]
+          exact List.mem_cons_self
+        · exact Or.inl ht
+    · rw [h, hr]
+      exact ⟨rfl, by simp only [depositOk, creditTo, depositMinted]; omega, Nat.le_refl _,
+        fun e he => List.mem_cons_of_mem _ he, fun b hb => Or.inl ⟨b, hb, rfl, rfl, rfl⟩, fun t ht => Or.inl ht⟩
+
+
+/-- the observation log only grows -/
+theorem applied_mono_inner : InnerRel (fun s s' => ∀ e ∈ s.applied, e ∈ s'.applied) where
+  refl := fun _ _ h => h
+  trans := fun h1 h2 e he => h2 e (h1 e he)
+  build := by intro s f tok time e he; rw [(frame_applied_inner s f).1 tok time]; exact he
+  cancelBatch := by intro s f tok nonce e he; rw [(frame_applied_inner s f).2.1 tok nonce]; exact he
+  setEstimate := by intro s f tok nonce est e he; rw [(frame_applied_inner s f).2.2 tok nonce est]; exact he
+  observe := by
+    intro s f n c _ _ e he
+    rw [observe_state]
+    simp only
+    rw [applyClaim_applied]
+    exact List.mem_cons_of_mem _ he
+
+theorem apply_applied_mono (s : St) (op : Op) : ∀ e ∈ s.applied, e ∈ (apply s op).applied := by
+  cases op with
+  | send f u tok amt h =>
+    have : (apply s (.send f u tok amt h)).applied = s.applied := by
+      rcases send_cases s f u tok amt h with ⟨_, h1⟩ | ⟨_, usage', _, _, _, _, _, h1⟩ <;> simp only [apply, h1]; rfl
+    rw [this]; exact fun _ h => h
+  | cancel f u id =>
+    have : (apply s (.cancel f u id)).applied = s.applied := by
+      rcases cancel_cases s f u id with ⟨_, h1⟩ | ⟨_, t, _, _, h1⟩ <;> simp only [apply, h1]; rfl
+    rw [this]; exact fun _ h => h
+  | build f tok time => exact applied_mono_inner.build s f tok time
+  | fund u tok amt => exact fun _ h => h
+  | setTax tok c =>
+    have : (setTax s tok c).applied = s.applied := by
+      unfold setTax; split; · rfl
+      split <;> rfl
+    simp only [apply]; rw [this]; exact fun _ h => h
+  | setLimit tok c => exact fun _ h => h
+  | claim n c =>
+    have : (addClaim s n c).applied = s.applied := by unfold addClaim; split <;> rfl
+    simp only [apply]; rw [this]; exact fun _ h => h
+  | endBlock f h now toks ests => exact applied_mono_inner.endBlock s f h now toks ests
+
+theorem foldl_applied_mono (ops : List Op) : ∀ s, ∀ e ∈ s.applied, e ∈ (ops.foldl apply s).applied := by
+  induction ops with
+  | nil => intro s e he; exact he
+  | cons op rest ih => intro s e he; exact ih _ e (apply_applied_mono s op e he)
+
+
+
+/-! ### the loops of the end-blocker as folds over their own result lists -/
+
+/-- phases of `endBlock` -/
+def ebBuilt (s : St) (f : Fault) (h now : Nat) (toks : List Nat) : St × Fault × List Res :=
+  if h % 50 == 0 then createBatches s f now toks else (s, f, [])
+def ebTallied (s : St) (f : Fault) (h now : Nat) (toks : List Nat) : St × Fault × List Res :=
+  tally (ebBuilt s f h now toks).1 (ebBuilt s f h now toks).2.1 (ebBuilt s f h now toks).1.claims.length
+def ebEstimated (s : St) (f : Fault) (h now : Nat) (toks : List Nat) (ests : List (Nat × Nat × Nat)) : St × Fault × List Res :=
+  applyEstimates (ebTallied s f h now toks).1 (ebTallied s f h now toks).2.1 ests
+def ebSwept (s : St) (f : Fault) (h now : Nat) (toks : List Nat) (ests : List (Nat × Nat × Nat)) : St × Fault × List Res :=
+  timeouts (ebEstimated s f h now toks ests).1 (ebEstimated s f h now toks ests).2.1 now
+    (batchOrder (ebEstimated s f h now toks ests).1.batches)
+
+def buildFold (time : Nat) (s : St) (l : List (Nat × Res)) : St :=
+  l.foldl (fun st p => if p.2 = .ok then buildOk st p.1 time else st) s
+
+def estimateFold (s : St) (l : List ((Nat × Nat × Nat) × Res)) : St :=
+  l.foldl (fun st p => if p.2 = .ok then estimateOk st p.1.1 p.1.2.1 p.1.2.2 else st) s
+
+/-- cancellation of the open batch with the key of `b` (the sweep looks the batch up again) -/
+def cancelKey (st : St) (b : Batch) : St :=
+  match findBatch st.batches b.token b.nonce with
+  | some b' => cancelBatchOk st b'
+  | none => st
+
+def sweepFold (s : St) (l : List (Batch × Res)) : St :=
+  l.foldl (fun st p => if p.2 = .ok then cancelKey st p.1 else st) s
+
+theorem createBatches_is_fold (time : Nat) (toks : List Nat) : ∀ (s : St) (f : Fault),
+    (createBatches s f time toks).1 = buildFold time s (toks.zip (createBatches s f time toks).2.2) ∧
+    (createBatches s f time toks).2.2.length ≤ toks.length := by
+  induction toks with
+  | nil => intro s f; exact ⟨rfl, Nat.le_refl _⟩
+  | cons tok rest ih =>
+    intro s f
+    unfold createBatches
+    simp only
+    have hst : (buildOne s f tok time).1 =
+        (if (buildOne s f tok time).2.2 = .ok then buildOk s tok time else s) := by
+      rcases buildOne_cases s f tok time with ⟨hr, h⟩ | ⟨hr, _, h⟩
+      · rw [if_neg hr]; exact h
+      · rw [if_pos hr]; exact h
+    split
+    · exact ⟨by simp only [List.zip_cons_cons, List.zip_nil_right, buildFold, List.foldl_cons, List.foldl_nil]; exact hst,
+        by simp⟩
+    · obtain ⟨ih1, ih2⟩ := ih (buildOne s f tok time).1 (buildOne s f tok time).2.1
+      refine ⟨?_, by simp only [List.length_cons]; exact Nat.succ_le_succ ih2⟩
+      simp only [List.zip_cons_cons, buildFold, List.foldl_cons]
+      rw [← hst]
+      exact ih1
+
+theorem applyEstimates_is_fold (ests : List (Nat × Nat × Nat)) : ∀ (s : St) (f : Fault),
+    (applyEstimates s f ests).1 = estimateFold s (ests.zip (applyEstimates s f ests).2.2) ∧
+    (applyEstimates s f ests).2.2.length = ests.length := by
+  induction ests with
+  | nil => intro s f; exact ⟨rfl, rfl⟩
+  | cons e rest ih =>
+    intro s f
+    obtain ⟨tok, nonce, est⟩ := e
+    unfold applyEstimates
+    simp only
+    have hst : (setEstimate s f tok nonce est).1 =
+        (if (setEstimate s f tok nonce est).2.2 = .ok then estimateOk s tok nonce est else s) := by
+      rcases setEstimate_cases s f tok nonce est with ⟨hr, h⟩ | ⟨hr, _, _, _, h⟩
+      · rw [if_neg (by rw [hr]; simp)]; exact h
+      · rw [if_pos hr]; exact h
+    obtain ⟨ih1, ih2⟩ := ih (setEstimate s f tok nonce est).1 (setEstimate s f tok nonce est).2.1
+    refine ⟨?_, by simp only [List.length_cons]; exact congrArg (· + 1) ih2⟩
+    simp only [List.zip_cons_cons, estimateFold, List.foldl_cons]
+    rw [← hst]
+    exact ih1
+
+theorem timeouts_is_fold (now : Nat) (bs : List Batch) : ∀ (s : St) (f : Fault),
+    (timeouts s f now bs).1 =
+      sweepFold s ((bs.filter (fun b => decide (b.timeout < now))).zip (timeouts s f now bs).2.2) ∧
+    (timeouts s f now bs).2.2.length ≤ (bs.filter (fun b => decide (b.timeout < now))).length := by
+  induction bs with
+  | nil => intro s f; exact ⟨rfl, Nat.le_refl _⟩
+  | cons b rest ih =>
+    intro s f
+    unfold timeouts
+    split
+    · rename_i hto
+      have hf : (b :: rest).filter (fun b => decide (b.timeout < now)) =
+          b :: rest.filter (fun b => decide (b.timeout < now)) := by simp [hto]
+      rw [hf]
+      simp only
+      have hst : (cancelBatch s f b.token b.nonce).1 =
+          (if (cancelBatch s f b.token b.nonce).2.2 = .ok then cancelKey s b else s) := by
+        rcases cancelBatch_cases s f b.token b.nonce with ⟨hr, h⟩ | ⟨hr, b', hfind, h⟩
+        · rw [if_neg (by rw [hr]; simp)]; exact h
+        · rw [if_pos hr, h]; simp only [cancelKey, hfind]
+      split
+      · exact ⟨by simp only [List.zip_cons_cons, List.zip_nil_right, sweepFold, List.foldl_cons, List.foldl_nil]; exact hst,
+          by simp⟩
+      · obtain ⟨ih1, ih2⟩ := ih (cancelBatch s f b.token b.nonce).1 (cancelBatch s f b.token b.nonce).2.1
+        refine ⟨?_, by simp only [List.length_cons]; exact Nat.succ_le_succ ih2⟩
+        simp only [List.zip_cons_cons, sweepFold, List.foldl_cons]
+        rw [← hst]
+        exact ih1
+    · rename_i hto
+      have hf : (b :: rest).filter (fun b => decide (b.timeout < now)) =
+          rest.filter (fun b => decide (b.timeout < now)) := by simp [hto]
+      rw [hf]
+      exact ih s f
+
+/-- one observation of the tally, with the result it reports -/
+inductive ObsStep : St → Res → St → Prop where
+  | executed (s : St) (n tok nonce eh : Nat) (b : Batch) : (n, Claim.executed tok nonce eh) ∈ s.claims →
+      n = s.lastObserved + 1 → findBatch s.batches tok nonce = some b → eh < b.timeout →
+      ObsStep s .ok { execOk { s with lastObserved := n } b with
+                        applied := (n, Claim.executed tok nonce eh, Res.ok) :: s.applied }
+  | deposited (s : St) (n tok amt : Nat) (r : Option Nat) (who : Nat) : (n, Claim.deposit tok amt r true) ∈ s.claims →
+      n = s.lastObserved + 1 → (who = communityPool ∨ r = some who) →
+      ObsStep s .ok { depositOk { s with lastObserved := n } who tok amt with
+                        applied := (n, Claim.deposit tok amt r true, Res.ok) :: s.applied }
+  | failed (s : St) (n : Nat) (c : Claim) : (n, c) ∈ s.claims → n = s.lastObserved + 1 →
+      ObsStep s .rejected { s with lastObserved := n, applied := (n, c, Res.rejected) :: s.applied }
+
+/-- a run of the tally: one `ObsStep` per reported result, in order -/
+inductive TallyTrace : St → List Res → St → Prop where
+  | nil (s : St) : TallyTrace s [] s
+  | cons {s s1 s' : St} {r : Res} {rs : List Res} : ObsStep s r s1 → TallyTrace s1 rs s' → TallyTrace s (r :: rs) s'
+
+theorem observe_obsStep (s : St) (f : Fault) (n : Nat) (c : Claim) (hn : n = s.lastObserved + 1) (hc : (n, c) ∈ s.claims) :
+    ObsStep s (observe s f n c).2.2 (observe s f n c).1 := by
+  rw [observe_state, observe_res]
+  rcases applyClaim_cases { s with lastObserved := n } f c with
+    ⟨hr, h⟩ | ⟨hr, ⟨tok, nonce, eh, b, hcl, hfind, hto, _, _, h⟩ | ⟨tok, amt, r, who, hcl, hwho, h⟩⟩
+  · rw [h, hr]; exact .failed s n c hc hn
+  · rw [h, hr]; subst hcl; exact .executed s n tok nonce eh b hc hn hfind hto
+  · rw [h, hr]; subst hcl; exact .deposited s n tok amt r who hc hn hwho
+
+theorem tally_trace (fuel : Nat) : ∀ (s : St) (f : Fault), TallyTrace s (tally s f fuel).2.2 (tally s f fuel).1 := by
+  induction fuel with
+  | zero => intro s f; exact .nil s
+  | succ k ih =>
+    intro s f
+    unfold tally
+    split
+    · exact .nil s
+    · rename_i n c hfind
+      simp only
+      have hmem := List.mem_of_find?_eq_some hfind
+      have hn : n = s.lastObserved + 1 := by simpa using List.find?_some hfind
+      split
+      · exact .cons (observe_obsStep s f n c hn hmem) (.nil _)
+      · exact .cons (observe_obsStep s f n c hn hmem) (ih _ _)
+
+theorem obsStep_applied {s s' : St} {r : Res} (h : ObsStep s r s') :
+    ∃ n c, s'.applied = (n, c, r) :: s.applied ∧ n = s.lastObserved + 1 ∧ (n, c) ∈ s.claims ∧ s'.lastObserved = n := by
+  cases h with
+  | executed n tok nonce eh b hc hn _ _ => exact ⟨n, _, rfl, hn, hc, rfl⟩
+  | deposited n tok amt r who hc hn _ => exact ⟨n, _, rfl, hn, hc, rfl⟩
+  | failed n c hc hn => exact ⟨n, c, rfl, hn, hc, rfl⟩
+
+theorem tallyTrace_flags {s s' : St} {rs : List Res} (h : TallyTrace s rs s') :
+    s'.applied.map (·.2.2) = rs.reverse ++ s.applied.map (·.2.2) ∧
+    s'.applied.length = rs.length + s.applied.length ∧ s'.lastObserved = s.lastObserved + rs.length := by
+  induction h with
+  | nil s => simp
+  | cons hstep _ ih =>
+    obtain ⟨n, c, hap, hn, _, hlo⟩ := obsStep_applied hstep
+    obtain ⟨ih1, ih2, ih3⟩ := ih
+    rw [hap] at ih1 ih2
+    refine ⟨?_, ?_, ?_⟩
+    · rw [ih1]; simp
+    · rw [ih2]; simp; omega
+    · rw [ih3, hlo, hn]; simp; omega
+
+/-- `accepted` only grows -/
+theorem foldl_accepted_mono (ops : List Op) : ∀ s, ∀ t ∈ s.accepted, t ∈ (ops.foldl apply s).accepted := by
+  induction ops with
+  | nil => intro s t ht; exact ht
+  | cons op rest ih =>
+    intro s t ht
+    apply ih
+    rcases apply_accepted s op with h | ⟨_, _, _, _, _, _, _, h⟩ <;> rw [h]
+    · exact ht
+    · exact List.mem_cons_of_mem _ ht
+
+
+theorem depositsOk_append (tok : Nat) (a b : List (Nat × Claim × Res)) :
+    depositsOk tok (a ++ b) = depositsOk tok a + depositsOk tok b := by
+  simp [depositsOk, List.map_append, List.sum_append]
+
+/-- burned log and observation log only grow at the front -/
+def LogsExtend (s s' : St) : Prop := ∃ nb na, s'.burned = nb ++ s.burned ∧ s'.applied = na ++ s.applied
+
+theorem logsExtend_innerRel : InnerRel LogsExtend where
+  refl := fun s => ⟨[], [], rfl, rfl⟩
+  trans := by
+    rintro a b c ⟨nb1, na1, h1, h2⟩ ⟨nb2, na2, h3, h4⟩
+    exact ⟨nb2 ++ nb1, na2 ++ na1, by rw [h3, h1, List.append_assoc], by rw [h4, h2, List.append_assoc]⟩
+  build := by
+    intro s f tok time
+    rcases buildOne_cases s f tok time with ⟨_, h⟩ | ⟨_, _, h⟩ <;> rw [h] <;> exact ⟨[], [], rfl, rfl⟩
+  cancelBatch := by
+    intro s f tok nonce
+    rcases cancelBatch_cases s f tok nonce with ⟨_, h⟩ | ⟨_, b, _, h⟩ <;> rw [h] <;> exact ⟨[], [], rfl, rfl⟩
+  setEstimate := by
+    intro s f tok nonce est
+    rcases setEstimate_cases s f tok nonce est with ⟨_, h⟩ | ⟨_, b, _, _, h⟩ <;> rw [h] <;> exact ⟨[], [], rfl, rfl⟩
+  observe := by
+    intro s f n c _ _
+    rw [observe_state]
+    rcases applyClaim_cases { s with lastObserved := n } f c with
+      ⟨_, h⟩ | ⟨_, ⟨_, _, _, b, _, _, _, _, _, h⟩ | ⟨_, _, _, _, _, _, h⟩⟩ <;> rw [h]
+    · exact ⟨[], [_], rfl, rfl⟩
+    · exact ⟨b.txs, [_], rfl, rfl⟩
+    · exact ⟨[], [_], rfl, rfl⟩
+
+theorem frame_funded : InnerRel (fun s s' => s'.funded = s.funded) :=
+  InnerRel.ofFrame (·.funded) (fun _ _ _ => rfl) (fun _ _ => rfl) (fun _ _ _ _ => rfl) (fun _ _ => rfl)
+    (fun _ _ _ _ => rfl) (fun _ _ => rfl) (fun _ _ => rfl)
+
+/-- what a whole end-block does to supply and escrow, from the two invariants at both ends -/
+theorem endBlock_delta (s : St) (f : Fault) (h now : Nat) (toks : List Nat) (ests : List (Nat × Nat × Nat))
+    (hi : Inv s) (hl : Logs s) :
+    ∃ nb na, (endBlock s f h now toks ests).1.burned = nb ++ s.burned ∧
+      (endBlock s f h now toks ests).1.applied = na ++ s.applied ∧
+      ∀ tok, (endBlock s f h now toks ests).1.supply tok + owedTok tok nb = s.supply tok + depositsOk tok na ∧
+             (endBlock s f h now toks ests).1.escrow tok + owedTok tok nb = s.escrow tok := by
+  obtain ⟨nb, na, hb, ha⟩ := logsExtend_innerRel.endBlock s f h now toks ests
+  obtain ⟨hi', hl'⟩ := both_stepRel.toInnerRel.endBlock s f h now toks ests ⟨hi, hl⟩
+  refine ⟨nb, na, hb, ha, ?_⟩
+  intro tok
+  constructor
+  · have h1 := hi'.supply tok
+    have h2 := hi.supply tok
+    rw [hl'.credit tok, hb, ha, owedTok_append, depositsOk_append, frame_funded.endBlock] at h1
+    rw [hl.credit tok] at h2
+    omega
+  · have h1 := hi'.escrow tok
+    have h2 := hi.escrow tok
+    have p1 := owedTok_perm tok hi'.life
+    have p2 := owedTok_perm tok hi.life
+    rw [frame_accepted.endBlock] at p1
+    rw [frame_refunded.endBlock, hb] at p1
+    simp only [owedTok_append] at p1 p2 h1 h2
+    omega
+
+theorem frame_supply_escrow (s : St) (op : Op)
+    (h1 : ∀ u tok amt, op ≠ .fund u tok amt) (h2 : ∀ f h now toks ests, op ≠ .endBlock f h now toks ests) :
+    (apply s op).supply = s.supply := by
+  cases op with
+  | send f u tok amt h =>
+    rcases send_cases s f u tok amt h with ⟨_, h1⟩ | ⟨_, usage', _, _, _, _, _, h1⟩ <;> simp only [apply, h1]; rfl
+  | cancel f u id =>
+    rcases cancel_cases s f u id with ⟨_, h1⟩ | ⟨_, t, _, _, h1⟩ <;> simp only [apply, h1]; rfl
+  | build f tok time =>
+    rcases buildOne_cases s f tok time with ⟨_, h1⟩ | ⟨_, _, h1⟩ <;> simp only [apply, h1]; rfl
+  | fund u tok amt => exact absurd rfl (h1 u tok amt)
+  | setTax tok c =>
+    simp only [apply]; unfold setTax; split; · rfl
+    split <;> rfl
+  | setLimit tok c => rfl
+  | claim n c => simp only [apply]; unfold addClaim; split <;> rfl
+  | endBlock f h now toks ests => exact absurd rfl (h2 f h now toks ests)
+
+
+theorem buildFold_log (time : Nat) (l : List (Nat × Res)) : ∀ s,
+    (buildFold time s l).applied = s.applied ∧ (buildFold time s l).lastObserved = s.lastObserved := by
+  induction l with
+  | nil => intro s; exact ⟨rfl, rfl⟩
+  | cons p rest ih =>
+    intro s
+    simp only [buildFold, List.foldl_cons]
+    split
+    · exact ih (buildOk s p.1 time)
+    · exact ih s
+
+theorem estimateFold_log (l : List ((Nat × Nat × Nat) × Res)) : ∀ s,
+    (estimateFold s l).applied = s.applied ∧ (estimateFold s l).lastObserved = s.lastObserved := by
+  induction l with
+  | nil => intro s; exact ⟨rfl, rfl⟩
+  | cons p rest ih =>
+    intro s
+    simp only [estimateFold, List.foldl_cons]
+    split
+    · exact ih (estimateOk s p.1.1 p.1.2.1 p.1.2.2)
+    · exact ih s
+
+theorem cancelKey_log (s : St) (b : Batch) :
+    (cancelKey s b).applied = s.applied ∧ (cancelKey s b).lastObserved = s.lastObserved := by
+  unfold cancelKey; split <;> exact ⟨rfl, rfl⟩
+
+theorem sweepFold_log (l : List (Batch × Res)) : ∀ s,
+    (sweepFold s l).applied = s.applied ∧ (sweepFold s l).lastObserved = s.lastObserved := by
+  induction l with
+  | nil => intro s; exact ⟨rfl, rfl⟩
+  | cons p rest ih =>
+    intro s
+    simp only [sweepFold, List.foldl_cons]
+    split
+    · have h1 := ih (cancelKey s p.1)
+      have h2 := cancelKey_log s p.1
+      exact ⟨h1.1.trans h2.1, h1.2.trans h2.2⟩
+    · exact ih s
+
+
 end Lemmas
 
 /-! ## Property theorems (C01) -/
@@ -1447,26 +1916,192 @@ theorem supply_delta (ops : List Op) (tok : Nat) :
   rw [hl.funded tok, hl.credit tok, fundLog_eq] at h
   exact h
 
-/-- **burned_provenance** ("burned because its batch was attested as executed"). A transfer in `burned`
-(i) became burned during an end-block of the history, and (ii) an executed-batch claim for its token was
-observed at some nonce `n ≤ lastObserved` with a successful handler, that claim being the one stored
-under `n`, supplied by a `claim` op of the history.  (`execBatch_burns_its_batch` says what such a
-handler burns: exactly the transfers of the batch the claim names.) -/
+/-- **burned_provenance** ("burned because its batch was attested as executed").  For every transfer `t`
+in `burned` after a history `ops` there is ONE end-block op of the history, `ops = pre ++ endBlock … :: rest`,
+in which all of the following happened:
+* `t` was not burned before it and is burned after it; right before it `t` was pending (pool or open batch);
+* an executed-batch claim `executed t.token nonce eh` was stored under a nonce `n` before the end-block
+  (by a `claim` op of `pre`), the tally's cursor was below `n` before and is at or above `n` after the
+  end-block, nothing had been observed at `n` before, and the observation log after the end-block holds
+  `(n, that claim, ok)` — it is applied *in this end-block* (and stays in the log for ever:
+  `applied_once_in_order` says the log has exactly one entry per nonce);
+* the batch the claim names is the batch `t` sat in: either `t` is a member of the open batch with key
+  `(t.token, nonce)` in the state right before the end-block (`InBatch`), or that nonce was allocated by the
+  batch counter during this very end-block (the periodic build of the same end-block put `t` into a new
+  batch, which the tally then found executed).
+What such a handler does is `execBatch_burns_its_batch`: it burns exactly the transfers of the batch with the
+key the claim names, so a claim for another batch of the same token cannot be the witness. -/
 theorem burned_provenance (ops : List Op) (t : Tx) (ht : t ∈ (run ops).burned) :
-    (∃ pre f h now toks ests rest, ops = pre ++ .endBlock f h now toks ests :: rest ∧
-        t ∉ (run pre).burned ∧ t ∈ (run (pre ++ [.endBlock f h now toks ests])).burned) ∧
-    (∃ n nonce eh, (n, Claim.executed t.token nonce eh, Res.ok) ∈ (run ops).applied ∧
-        1 ≤ n ∧ n ≤ (run ops).lastObserved ∧ Op.claim n (.executed t.token nonce eh) ∈ ops) := by
-  constructor
-  · rcases first_appearance apply (·.burned) t ops St.init ht with h | ⟨pre, op, rest, he, hn, hm⟩
-    · simp [St.init] at h
-    · rcases apply_burned (pre.foldl apply St.init) op with h1 | ⟨f, h, now, toks, ests, hop⟩
-      · rw [h1] at hm; exact absurd hm hn
-      · subst hop
-        exact ⟨pre, f, h, now, toks, ests, rest, he, hn, by rw [run_snoc]; exact hm⟩
-  · obtain ⟨n, nonce, eh, hm⟩ := (reachable_logs ops).burnedProv t ht
-    obtain ⟨h1, h2, _, h4⟩ := (applied_once_in_order ops).2.2 _ hm
-    exact ⟨n, nonce, eh, hm, h1, h2, h4⟩
+    ∃ pre f h now toks ests rest n nonce eh,
+      ops = pre ++ .endBlock f h now toks ests :: rest ∧
+      t ∉ (run pre).burned ∧ t ∈ (run (pre ++ [.endBlock f h now toks ests])).burned ∧
+      t ∈ (run pre).pool ++ batched (run pre) ∧
+      (n, Claim.executed t.token nonce eh) ∈ (run pre).claims ∧ Op.claim n (.executed t.token nonce eh) ∈ pre ∧
+      (run pre).lastObserved < n ∧ n ≤ (run (pre ++ [.endBlock f h now toks ests])).lastObserved ∧
+      (∀ e ∈ (run pre).applied, e.1 ≠ n) ∧
+      (n, Claim.executed t.token nonce eh, Res.ok) ∈ (run (pre ++ [.endBlock f h now toks ests])).applied ∧
+      (n, Claim.executed t.token nonce eh, Res.ok) ∈ (run ops).applied ∧
+      (InBatch (run pre) t nonce ∨
+        ((run pre).lastBatch < nonce ∧ nonce ≤ (run (pre ++ [.endBlock f h now toks ests])).lastBatch)) := by
+  rcases first_appearance apply (·.burned) t ops St.init ht with h0 | ⟨pre, op, rest, he, hn, hm⟩
+  · simp [St.init] at h0
+  · rcases apply_burned (pre.foldl apply St.init) op with h1 | ⟨f, h, now, toks, ests, hop⟩
+    · rw [h1] at hm; exact absurd hm hn
+    · subst hop
+      have hi : Inv (run pre) := reachable_inv pre
+      have hl : Logs (run pre) := reachable_logs pre
+      obtain ⟨hi', hb⟩ := burn_innerRel.endBlock (run pre) f h now toks ests hi
+      have hpost : run (pre ++ [.endBlock f h now toks ests]) = (endBlock (run pre) f h now toks ests).1 := run_snoc _ _
+      have hm' : t ∈ (endBlock (run pre) f h now toks ests).1.burned := hm
+      rcases hb.burned t hm' with hold | ⟨n, nonce, eh, hc, l1, l2, hap, hbt⟩
+      · exact absurd hold hn
+      · refine ⟨pre, f, h, now, toks, ests, rest, n, nonce, eh, he, hn, by rw [hpost]; exact hm', ?_, hc,
+          (claims_from_history pre).1 _ hc, l1, by rw [hpost]; exact l2, ?_, by rw [hpost]; exact hap, ?_, ?_⟩
+        · -- pending right before the end-block
+          have hacc : t ∈ (run pre).accepted := by
+            have h1 : t ∈ (endBlock (run pre) f h now toks ests).1.accepted :=
+              hi'.life.mem_iff.mpr (by simp [hm'])
+            rw [frame_accepted.endBlock] at h1
+            exact h1
+          have hmem := hi.life.mem_iff.mp hacc
+          simp only [List.mem_append] at hmem ⊢
+          rcases hmem with ((h1 | h1) | h1) | h1
+          · exact Or.inl h1
+          · exact Or.inr h1
+          · -- refunded before: then it is refunded after too, and burned after: the ids clash
+            exfalso
+            have hr' : t ∈ (endBlock (run pre) f h now toks ests).1.refunded := by
+              rw [frame_refunded.endBlock]; exact h1
+            have hnd := (hi'.life.map (·.id)).nodup_iff.mp hi'.nodup
+            rw [List.map_append] at hnd
+            exact (List.nodup_append.mp hnd).2.2 t.id (List.mem_map.mpr ⟨t, by simp [hr'], rfl⟩) t.id
+              (List.mem_map.mpr ⟨t, hm', rfl⟩) rfl
+          · exact absurd h1 hn
+        · intro e he' hen
+          have hm2 : e.1 ∈ (run pre).applied.map (·.1) := List.mem_map.mpr ⟨e, he', rfl⟩
+          rw [hl.nonces] at hm2
+          have := (mem_countdown.mp hm2).2
+          omega
+        · have : run ops = rest.foldl apply (run (pre ++ [.endBlock f h now toks ests])) := by
+            rw [he, show pre ++ Op.endBlock f h now toks ests :: rest = (pre ++ [.endBlock f h now toks ests]) ++ rest by simp,
+              run_append]
+          rw [this]
+          exact foldl_applied_mono rest _ _ (by rw [hpost]; exact hap)
+        · rcases hbt with hbt | ⟨m1, m2⟩
+          · exact Or.inl hbt
+          · exact Or.inr ⟨m1, by rw [hpost]; exact m2⟩
+
+/-- **burned_claim_in_history.** Corollary of `burned_provenance` in terms of the final state only: the
+successful executed-batch observation that burned `t` is in the final observation log, at a nonce
+`1 ≤ n ≤ lastObserved`, and its claim was supplied by a `claim` op of the history. -/
+theorem burned_claim_in_history (ops : List Op) (t : Tx) (ht : t ∈ (run ops).burned) :
+    ∃ n nonce eh, (n, Claim.executed t.token nonce eh, Res.ok) ∈ (run ops).applied ∧
+        1 ≤ n ∧ n ≤ (run ops).lastObserved ∧ Op.claim n (.executed t.token nonce eh) ∈ ops := by
+  obtain ⟨pre, f, h, now, toks, ests, rest, n, nonce, eh, he, _, _, _, _, _, _, _, _, _, hap, _⟩ :=
+    burned_provenance ops t ht
+  obtain ⟨h1, h2, _, h4⟩ := (applied_once_in_order ops).2.2 _ hap
+  exact ⟨n, nonce, eh, hap, h1, h2, h4⟩
+
+/-- **accepted_forever** (the converse of `accepted_provenance`).  A send that reports `ok` records its
+transfer, and the record is never lost: after every continuation of the history the transfer is still in
+`accepted`, hence (partition) in exactly one of pool / open batch / refunded / burned. -/
+theorem accepted_forever (pre post : List Op) (f : Fault) (u tok amt h : Nat)
+    (hok : (send (run pre) f u tok amt h).2.2 = .ok) :
+    newTx (run pre) u tok amt ∈ (run (pre ++ .send f u tok amt h :: post)).accepted ∧
+    newTx (run pre) u tok amt ∈ (run (pre ++ .send f u tok amt h :: post)).pool ++
+      batched (run (pre ++ .send f u tok amt h :: post)) ++ (run (pre ++ .send f u tok amt h :: post)).refunded ++
+      (run (pre ++ .send f u tok amt h :: post)).burned := by
+  have h1 : newTx (run pre) u tok amt ∈ (run (pre ++ .send f u tok amt h :: post)).accepted := by
+    rw [run_append, List.foldl_cons]
+    apply foldl_accepted_mono
+    show newTx (run pre) u tok amt ∈ (send (run pre) f u tok amt h).1.accepted
+    rw [(send_ok_records (run pre) f u tok amt h hok).1]
+    exact List.mem_cons_self
+  exact ⟨h1, (reachable_inv _).life.mem_iff.mp h1⟩
+
+/-- **endBlock_loops_are_folds** (the composite, tied to its inputs and to the results it reports).  The
+end-blocker is its four loops in sequence and its result list is the concatenation of theirs; and each
+loop's end state is a *fold over that loop's own result list*:
+* the periodic build over `toks` zipped with its results: `buildOk` for every `ok`, nothing otherwise (the
+  list is cut at the first `rejected`: `createBatches_is_fold` also bounds its length);
+* the tally is a chain of `ObsStep`s, one per reported result: `ok` = the whole effect of the executed-batch
+  or deposit claim stored at the next nonce, `rejected` = the bare observation (cursor and log move);
+* the estimate loop over `ests` zipped with its results: `estimateOk` for every `ok`;
+* the time-out sweep over the timed-out batches (store order) zipped with its results: the batch with that
+  key is cancelled for every `ok`.
+So no state change of an end-block is unaccounted for by an `ok` in `(endBlock …).2.2`, whatever the fault
+sequence. -/
+theorem endBlock_loops_are_folds (s : St) (f : Fault) (h now : Nat) (toks : List Nat) (ests : List (Nat × Nat × Nat)) :
+    endBlock s f h now toks ests =
+      ((ebSwept s f h now toks ests).1, (ebSwept s f h now toks ests).2.1,
+        (ebBuilt s f h now toks).2.2 ++ (ebTallied s f h now toks).2.2 ++ (ebEstimated s f h now toks ests).2.2 ++
+          (ebSwept s f h now toks ests).2.2) ∧
+    (ebBuilt s f h now toks).1 = buildFold now s (toks.zip (ebBuilt s f h now toks).2.2) ∧
+    TallyTrace (ebBuilt s f h now toks).1 (ebTallied s f h now toks).2.2 (ebTallied s f h now toks).1 ∧
+    (ebEstimated s f h now toks ests).1 =
+      estimateFold (ebTallied s f h now toks).1 (ests.zip (ebEstimated s f h now toks ests).2.2) ∧
+    (ebSwept s f h now toks ests).1 =
+      sweepFold (ebEstimated s f h now toks ests).1
+        (((batchOrder (ebEstimated s f h now toks ests).1.batches).filter (fun b => decide (b.timeout < now))).zip
+          (ebSwept s f h now toks ests).2.2) := by
+  refine ⟨rfl, ?_, tally_trace _ _ _, (applyEstimates_is_fold ests _ _).1, (timeouts_is_fold now _ _ _).1⟩
+  unfold ebBuilt
+  split
+  · exact (createBatches_is_fold now toks s f).1
+  · simp [buildFold]
+
+/-- **tally_results_are_log_flags.** The handler-result flags in the observation log are the results the
+tally *returned* (newest first), and the cursor advanced by exactly that many nonces: the log's flags are
+not a free ghost — `minted = depositsOk applied` (`minted_eq_applied`) counts exactly the deposits whose
+`ok` the end-block reported. -/
+theorem tally_results_are_log_flags (s : St) (f : Fault) (h now : Nat) (toks : List Nat) (ests : List (Nat × Nat × Nat)) :
+    (endBlock s f h now toks ests).1.applied.map (·.2.2) =
+      (ebTallied s f h now toks).2.2.reverse ++ s.applied.map (·.2.2) ∧
+    (endBlock s f h now toks ests).1.lastObserved = s.lastObserved + (ebTallied s f h now toks).2.2.length := by
+  obtain ⟨he, hb, ht, hes, hsw⟩ := endBlock_loops_are_folds s f h now toks ests
+  have h0 : (endBlock s f h now toks ests).1 = (ebSwept s f h now toks ests).1 := by rw [he]
+  obtain ⟨t1, _, t3⟩ := tallyTrace_flags ht
+  have b1 := buildFold_log now (toks.zip (ebBuilt s f h now toks).2.2) s
+  rw [← hb] at b1
+  have e1 := estimateFold_log (ests.zip (ebEstimated s f h now toks ests).2.2) (ebTallied s f h now toks).1
+  rw [← hes] at e1
+  have s1 := sweepFold_log (((batchOrder (ebEstimated s f h now toks ests).1.batches).filter
+    (fun b => decide (b.timeout < now))).zip (ebSwept s f h now toks ests).2.2) (ebEstimated s f h now toks ests).1
+  rw [← hsw] at s1
+  rw [h0, s1.1, s1.2, e1.1, e1.2, t1, t3, b1.1, b1.2]
+  exact ⟨rfl, rfl⟩
+
+/-- **supply_changes_only_by_fund_deposit_burn** (supply clause, per operation of any history).  Appending an
+op to a history changes a token's supply only if the op is (a) a `fund` (coins from outside the bridge:
+exactly that amount), or (b) an end-block: then the supply goes up by the deposit claims applied *in that
+end-block* (`na` = the observations it appended to the log) and down by amount-plus-tax of the transfers
+burned *in that end-block* (`nb` = what it prepended to `burned`), and the escrow goes down by the same
+burned sum.  No other op changes supply or `burned`. -/
+theorem supply_changes_only_by_fund_deposit_burn (pre : List Op) (op : Op) :
+    (∀ u tok amt, op = .fund u tok amt → ∀ tok', (run (pre ++ [op])).supply tok' =
+        (run pre).supply tok' + (if tok' = tok then amt else 0)) ∧
+    (∀ f h now toks ests, op = .endBlock f h now toks ests →
+      ∃ nb na, (run (pre ++ [op])).burned = nb ++ (run pre).burned ∧ (run (pre ++ [op])).applied = na ++ (run pre).applied ∧
+        ∀ tok, (run (pre ++ [op])).supply tok + owedTok tok nb = (run pre).supply tok + depositsOk tok na ∧
+               (run (pre ++ [op])).escrow tok + owedTok tok nb = (run pre).escrow tok) ∧
+    ((∀ u tok amt, op ≠ .fund u tok amt) → (∀ f h now toks ests, op ≠ .endBlock f h now toks ests) →
+      (run (pre ++ [op])).supply = (run pre).supply ∧ (run (pre ++ [op])).burned = (run pre).burned) := by
+  refine ⟨?_, ?_, ?_⟩
+  · intro u tok amt hop tok'
+    subst hop
+    rw [run_snoc]
+    simp only [apply, fund, upd]
+    split <;> simp_all
+  · intro f h now toks ests hop
+    subst hop
+    rw [run_snoc]
+    exact endBlock_delta (run pre) f h now toks ests (reachable_inv pre) (reachable_logs pre)
+  · intro h1 h2
+    rw [run_snoc]
+    refine ⟨frame_supply_escrow (run pre) op h1 h2, ?_⟩
+    rcases apply_burned (run pre) op with hb | ⟨f, h, now, toks, ests, hop⟩
+    · exact hb
+    · exact absurd hop (h2 f h now toks ests)
 
 /-- **execBatch_burns_its_batch.** A successfully applied executed-batch claim for `(tok, nonce)` burns
 exactly the transfers of the open batch with that key — the batch disappears, escrow and supply of the
@@ -1577,7 +2212,9 @@ the state it ends in is reached from the state it started in by a finite sequenc
 keeper-level sub-operations (`Whole`: a complete batch build, a complete batch cancellation, a complete
 estimate update, a completely applied executed-batch or deposit claim) and bare observations of claims
 whose handler failed.  A failing build / cancellation / estimate update / claim handler contributes
-nothing at all: no half-done sub-operation is ever visible. -/
+nothing at all: no half-done sub-operation is ever visible.  (`WholeSteps` is reachability; the sharper
+statement — *which* whole steps, in terms of `toks`, `ests` and the result list — is
+`endBlock_loops_are_folds`.) -/
 theorem endBlock_only_whole_steps (s : St) (f : Fault) (h now : Nat) (toks : List Nat)
     (ests : List (Nat × Nat × Nat)) : WholeSteps s (endBlock s f h now toks ests).1 :=
   whole_innerRel.endBlock s f h now toks ests
@@ -1710,5 +2347,21 @@ example : ((run demoFaulted).batches.map (·.nonce)) = [1] ∧ (run demoFaulted)
     (run demoFaulted).applied = [(2, .deposit 1 70 (some 2) true, .rejected), (1, .executed 1 1 5, .rejected)] ∧
     (endBlock (run (demoFaulted.take 5)) { points := [(tBurn, 1), (tMint, 1)] } 7 1001 [1] []).2.2 = [.rejected, .rejected] := by
   decide
+
+/-- two batches of the same token, executed by their own claims in two different end-blocks: the claim for
+batch 2 cannot stand in for the burn of the transfer of batch 1 (`burned_provenance` names the nonce) -/
+def demoTwoBatches : List Op :=
+  [ .fund 1 1 1000, .send Fault.none 1 1 100 10, .build Fault.none 1 1000,
+    .send Fault.none 1 1 50 11, .build Fault.none 1 1000,
+    .claim 1 (.executed 1 1 5), .claim 2 (.executed 1 2 6),
+    .endBlock (Fault.at tBurn 2) 7 1001 [1] [],      -- the burn of batch 2 fails: only batch 1 is burned
+    .endBlock Fault.none 8 1002 [1] [] ]
+
+example : ((run (demoTwoBatches.take 8)).burned.map (·.id)) = [1] ∧
+    ((run (demoTwoBatches.take 8)).batches.map (fun b => (b.nonce, b.txs.map (·.id)))) = [(2, [2])] ∧
+    (run (demoTwoBatches.take 8)).applied = [(2, .executed 1 2 6, .rejected), (1, .executed 1 1 5, .ok)] ∧
+    ((run (demoTwoBatches.take 7)).batches.map (fun b => (b.nonce, b.txs.map (·.id)))) = [(2, [2]), (1, [1])] ∧
+    (endBlock (run (demoTwoBatches.take 7)) (Fault.at tBurn 2) 7 1001 [1] []).2.2 = [.ok, .rejected] ∧
+    ((run demoTwoBatches).burned.map (·.id)) = [1] ∧ (run demoTwoBatches).lastObserved = 2 := by decide
 
 end Paloma.Bridge
